@@ -330,6 +330,12 @@ func c08Scenarios(tier string) []*Scenario {
 		add(c08P{Traffic: []string{"n", "c"}, Cause: "faults", Unblock: true}, Bounds{1, 1, 1})
 		add(c08P{Traffic: []string{"g"}, Cause: "stop+peerclose", Stepped: true, Unblock: true}, Bounds{1, 1, 0})
 		add(c08P{Traffic: []string{"g"}, Cause: "peerclose+stop", Stepped: true, Unblock: true}, Bounds{1, 1, 0})
+		// handlers awaiting a callback that is never answered: every stop cause must release them
+		for _, t := range [][]string{{"p"}, {"q"}} {
+			add(c08P{Traffic: t, Cause: "stop", Stepped: true, Unblock: true, Push: true}, Bounds{1, 1, 0})
+			add(c08P{Traffic: t, Cause: "peerclose", Stepped: true, Unblock: true, Push: true}, Bounds{1, 1, 0})
+			add(c08P{Traffic: t, Cause: "stop", Unblock: false, Push: true}, Bounds{1, 2, 0})
+		}
 		return out
 	}
 	for _, t := range traffics {
@@ -345,6 +351,14 @@ func c08Scenarios(tier string) []*Scenario {
 			add(c08P{Traffic: t, Cause: "stop+peerclose", Stepped: true, Unblock: unb}, Bounds{2, 1, 0})
 			add(c08P{Traffic: t, Cause: "peerclose+stop", Stepped: true, Unblock: unb}, Bounds{2, 1, 0})
 			add(c08P{Traffic: t, Cause: "stop+peerclose", Unblock: unb}, Bounds{2, 1, 0})
+		}
+	}
+	for _, t := range [][]string{{"p"}, {"q"}, {"p", "c"}} {
+		for _, unb := range []bool{true, false} {
+			add(c08P{Traffic: t, Cause: "stop", Unblock: unb, Push: true}, Bounds{2, 2, 0})
+			add(c08P{Traffic: t, Cause: "stop", Stepped: true, Unblock: unb, Push: true}, Bounds{2, 2, 0})
+			add(c08P{Traffic: t, Cause: "peerclose", Stepped: true, Unblock: unb, Push: true}, Bounds{2, 2, 0})
+			add(c08P{Traffic: t, Cause: "faults", Unblock: unb, Push: true}, Bounds{1, 2, 1})
 		}
 	}
 	for _, t := range [][]string{{"c"}, {"g"}, {"h"}, {"h", "n"}} {
